@@ -36,6 +36,7 @@ type c18Fault struct {
 	Off   int64  `json:"off"`
 	Hex   string `json:"hex"`
 	Label string `json:"label,omitempty"`
+	Size0 bool   `json:"size0,omitempty"` // open the image with size 0 ("unknown", as examples/serve-image does) instead of its real size
 }
 
 type c18Case struct {
@@ -49,7 +50,7 @@ type c18Case struct {
 	N      int        `json:"n,omitempty"`    // ordinal of the probe inside its base (journal only; lets a collection run resume after a process death)
 }
 
-var c18Bases = []string{"fat12", "fat16", "fat32", "ext4", "ext4-csum", "ext4-mke2fs", "iso", "iso-rr", "sq-none", "sq-gzip"}
+var c18Bases = []string{"fat12", "fat16", "fat32", "ext4", "ext4-csum", "ext4-mke2fs", "ext4-htree", "iso", "iso-rr", "sq-none", "sq-gzip"}
 
 type c18Image struct {
 	bytes     []byte
@@ -118,8 +119,13 @@ func c18Walk(kind string, d *dev.Device, size int64) error {
 	return err
 }
 
-// c18WalkOpened also reports whether the image was accepted at open (the walk then ran on damaged structures).
 func c18WalkOpened(kind string, d *dev.Device, size int64) (bool, error) {
+	return c18WalkOpenedAs(kind, d, size, size)
+}
+
+// c18WalkOpenedAs also reports whether the image was accepted at open (the walk then ran on damaged structures).
+// imgSize is the real size of the image (it bounds how much data the walker reads); size is what the reader is told.
+func c18WalkOpenedAs(kind string, d *dev.Device, imgSize, size int64) (bool, error) {
 	var fsys iofs.ReadDirFS
 	var err error
 	switch {
@@ -154,6 +160,9 @@ func c18WalkOpened(kind string, d *dev.Device, size int64) (bool, error) {
 		if entries > 5000 {
 			return fmt.Errorf("stop: more than 5000 entries")
 		}
+		if xf, ok := fsys.(*ext4.FileSystem); ok {
+			_, _ = xf.GetXattr(p) // extended attributes are part of what a walk of an ext4 image reads
+		}
 		if de.IsDir() || de.Type()&iofs.ModeSymlink != 0 {
 			return nil
 		}
@@ -174,7 +183,7 @@ func c18WalkOpened(kind string, d *dev.Device, size int64) (bool, error) {
 			if n == 0 {
 				return fmt.Errorf("endless-read: Read of %q returns (0, nil) repeatedly", clip(p))
 			}
-			if total > 8*size+1<<20 {
+			if total > 8*imgSize+1<<20 {
 				return nil // more data than the image could hold: stop reading, not a crash
 			}
 		}
@@ -266,6 +275,68 @@ func c18Build(base string) *c18Image {
 			}
 			im.size = int64(len(b))
 			d = dev.FromBytes(b, im.size)
+		case "ext4-htree":
+			// made by mke2fs -d, then e2fsck -fyD (hash-indexed directory), a sparse file whose extent tree has a
+			// leaf block of its own, an in-inode and a block extended attribute (debugfs ea_set)
+			dir, err := os.MkdirTemp("", "verif_c18")
+			if err != nil {
+				im.err = err
+				return
+			}
+			defer os.RemoveAll(dir)
+			if im.err = os.Mkdir(dir+"/src", 0o755); im.err != nil {
+				return
+			}
+			if im.err = mk.Materialize(dir+"/src", tree); im.err != nil {
+				return
+			}
+			if im.err = os.Mkdir(dir+"/src/big", 0o755); im.err != nil {
+				return
+			}
+			for i := 0; i < 130; i++ {
+				if im.err = os.WriteFile(fmt.Sprintf("%s/src/big/entry-%04d-%s", dir, i, strings.Repeat("n", 36)), nil, 0o644); im.err != nil {
+					return
+				}
+			}
+			sp, err := os.Create(dir + "/src/sparse.bin")
+			if err != nil {
+				im.err = err
+				return
+			}
+			for k := 0; k < 7; k++ {
+				if _, im.err = sp.WriteAt(mk.Content{Seed: uint32(40 + k), Len: 1024, Style: 0}.Bytes(), int64(k)*9*1024+2048); im.err != nil {
+					return
+				}
+			}
+			sp.Close()
+			for k := 0; k < 7; k++ { // payload, not structure: left out of the fault positions
+				tree = append(tree, mk.Entry{Path: fmt.Sprintf("sparse-seg-%d", k), Kind: mk.KFile, Data: mk.Content{Seed: uint32(40 + k), Len: 1024, Style: 0}})
+			}
+			// fixed UUID and hash seed: the layout of the hash tree (and with it every fault position) is the same in every run
+			if _, infra := indep.Mke2fs(dir+"/img", 4096, "-t", "ext4", "-b", "1024", "-I", "256", "-O", "^has_journal", "-U", "11111111-2222-3333-4444-555555555555",
+				"-E", "hash_seed=11111111-2222-3333-4444-555555555556", "-d", dir+"/src"); infra != "" {
+				im.err = fmt.Errorf("%s", infra)
+				return
+			}
+			if code, out, infra := indep.E2fsckFix(dir + "/img"); infra != "" || code > 1 {
+				im.err = fmt.Errorf("e2fsck -fyD: exit %d %s %s", code, infra, firstWords(out, 30))
+				return
+			}
+			script := "ea_set /B.TXT user.small tiny\nea_set /big user.large " + strings.Repeat("v", 600) + "\n"
+			if im.err = os.WriteFile(dir+"/script", []byte(script), 0o644); im.err != nil {
+				return
+			}
+			if _, infra := indep.DebugfsScript(dir+"/img", dir+"/script"); infra != "" {
+				im.err = fmt.Errorf("%s", infra)
+				return
+			}
+			b, err := os.ReadFile(dir + "/img")
+			if err != nil {
+				im.err = err
+				return
+			}
+			im.size = int64(len(b))
+			d = dev.FromBytes(b, im.size)
 		case "iso", "iso-rr":
 			im.size = 512 << 10
 			d = dev.New(im.size)
@@ -273,7 +344,7 @@ func c18Build(base string) *c18Image {
 		case "sq-none", "sq-gzip":
 			im.size = 256 << 10
 			d = dev.New(im.size)
-			o := mk.SqOpts{Comp: "gzip"}
+			o := mk.SqOpts{Comp: "gzip", Level: 6}
 			if base == "sq-none" {
 				o = mk.SqOpts{Comp: "none", NoCompInodes: true, NoCompData: true, NoCompFrags: true}
 			}
@@ -408,6 +479,15 @@ func c18FATFaults(kind string, im *c18Image) []c18Fault {
 		f := out[i]
 		out = append(out, c18Fault{Off: f.Off + int64(rep.FATSectors)*int64(rep.BytesPerSector), Hex: f.Hex, Label: f.Label + " [second FAT copy only]"})
 	}
+	// the same chain faults with the volume opened as "size unknown" (size 0): bounds derived from the size
+	// argument are then not available to the reader, the ones derived from the boot sector must do
+	n = len(out)
+	for i := 0; i < n; i++ {
+		f := out[i]
+		f.Size0 = true
+		f.Label += " [opened with size 0]"
+		out = append(out, f)
+	}
 	return out
 }
 
@@ -438,6 +518,11 @@ func c18Values(img []byte, off int64, w int, size, blk int64) [][]byte {
 		if nb, ok := rd(at); ok && w <= 4 {
 			cands = append(cands, nb, nb+1, nb-1)
 		}
+	}
+	if w == 2 || w == 4 {
+		// offsets into 8 KiB metadata blocks, sector and block counts: values that are small against the field's
+		// range but large against what the image holds
+		cands = append(cands, 0x100, 0x400, 0x1000, 0x1fff, 0x2000, 0x2001)
 	}
 	seen := map[uint64]bool{o: true}
 	var out [][]byte
@@ -482,9 +567,13 @@ func c18Probe(r *hx.Result, im *c18Image, f c18Fault, also ...c18Fault) (opened 
 		limit = watchdog()
 	}
 	var werr error
+	osz := im.size
+	if f.Size0 {
+		osz = 0
+	}
 	before := heapAllocs()
 	fin := hx.WithTimeout(limit, func() {
-		if p, pv, st := hx.Safe(func() { opened, werr = c18WalkOpened(im.kind, d, im.size) }); p {
+		if p, pv, st := hx.Safe(func() { opened, werr = c18WalkOpenedAs(im.kind, d, im.size, osz) }); p {
 			r.Fail("panic@"+panicSite(st), "%s image with bytes %s at offset %d (%s): open+walk panicked: %v [%s]", im.kind, f.Hex, f.Off, f.Label, pv, st)
 		}
 	})
@@ -496,7 +585,7 @@ func c18Probe(r *hx.Result, im *c18Image, f c18Fault, also ...c18Fault) (opened 
 		d3, restore3 := im.damaged(all...)
 		defer restore3()
 		limit *= 3
-		fin = hx.WithTimeout(limit, func() { hx.Safe(func() { werr = c18Walk(im.kind, d3, im.size) }) })
+		fin = hx.WithTimeout(limit, func() { hx.Safe(func() { _, werr = c18WalkOpenedAs(im.kind, d3, im.size, osz) }) })
 		if fin {
 			r.Class("slow-first-attempt")
 		}
@@ -524,7 +613,7 @@ func c18Probe(r *hx.Result, im *c18Image, f c18Fault, also ...c18Fault) (opened 
 		for i := 0; i < 3 && peak > bound; i++ {
 			d2 := d
 			if p := peakHeap(func() {
-				hx.WithTimeout(limit, func() { hx.Safe(func() { _ = c18Walk(im.kind, d2, im.size) }) })
+				hx.WithTimeout(limit, func() { hx.Safe(func() { _, _ = c18WalkOpenedAs(im.kind, d2, im.size, osz) }) })
 			}); p < peak {
 				peak = p
 			}
@@ -599,7 +688,7 @@ func c18Minimise(im *c18Image, f c18Fault, first hx.Result) (c18Fault, int, hx.R
 		try := append([]byte(nil), cur...)
 		try[i] = orig[i]
 		var pr hx.Result
-		c18Probe(&pr, im, c18Fault{Off: f.Off, Hex: hexs(try)})
+		c18Probe(&pr, im, c18Fault{Off: f.Off, Hex: hexs(try), Size0: f.Size0})
 		if pr.Failed() {
 			cur, best = try, pr
 		}
@@ -609,7 +698,7 @@ func c18Minimise(im *c18Image, f c18Fault, first hx.Result) (c18Fault, int, hx.R
 	if k == 1 {
 		for i := range cur {
 			if cur[i] != orig[i] {
-				nf := c18Fault{Off: f.Off + int64(i), Hex: hexs(cur[i : i+1])}
+				nf := c18Fault{Off: f.Off + int64(i), Hex: hexs(cur[i : i+1]), Size0: f.Size0}
 				var pr hx.Result
 				c18Probe(&pr, im, nf)
 				if pr.Failed() {
@@ -618,7 +707,7 @@ func c18Minimise(im *c18Image, f c18Fault, first hx.Result) (c18Fault, int, hx.R
 			}
 		}
 	}
-	return c18Fault{Off: f.Off, Hex: hexs(cur)}, k, best
+	return c18Fault{Off: f.Off, Hex: hexs(cur), Size0: f.Size0}, k, best
 }
 
 var (
